@@ -89,3 +89,290 @@ def ground_truth_shares(g, storage_index):
         if d == rel and fn.isdigit():
             out[(si, int(fn))] = data
     return out
+
+
+# ------------------------------------------------------------------ prepared files
+import struct
+from allmydata.util import hashutil as _hashutil
+from allmydata.storage.server import storage_index_to_dir
+
+_PREP = {}
+
+
+def prepare(k, n, seg, size, seed, bad_ct_segments=()):
+    """Upload once (n servers, one share each, default schedule) and return
+    {cap, data, si, shares: {shnum: container-file bytes}}.
+    bad_ct_segments: segment numbers whose ciphertext-hash-tree leaf is made wrong at
+    encoding time (shares stay self-consistent and match the cap; only the ciphertext
+    hash check of that segment fails after decoding)."""
+    key = (k, n, seg, size, seed, tuple(bad_ct_segments))
+    if key in _PREP:
+        return _PREP[key]
+    data = payload(size, seed, b"prep")
+    g = grid.Grid(n, client_kw=dict(k=k, n=n, happy=n, max_segment_size=seg))
+    orig = _hashutil.crypttext_segment_hasher
+    calls = [0]
+
+    class _Lying(object):
+        def __init__(self, real, lie):
+            self.real, self.lie = real, lie
+
+        def update(self, d):
+            self.real.update(d)
+
+        def digest(self):
+            d = self.real.digest()
+            return _hashutil.tagged_hash(b"vt-lie", d) if self.lie else d
+
+    def fake():
+        i = calls[0]
+        calls[0] += 1
+        return _Lying(orig(), i in bad_ct_segments)
+    try:
+        if bad_ct_segments:
+            _hashutil.crypttext_segment_hasher = fake
+        b = upload(g, data)
+        assert b and b[0][0] == "ok", b
+        cap = b[0][1].get_uri()
+        u = tahoe_uri.from_string(cap)
+        si = u.get_storage_index()
+        shares = {}
+        for (sv, shnum), blob in ground_truth_shares(g, si).items():
+            shares[shnum] = blob
+        assert sorted(shares) == list(range(n)), sorted(shares)
+    finally:
+        _hashutil.crypttext_segment_hasher = orig
+        g.close()
+    out = {"cap": cap, "data": data, "si": si, "shares": shares, "k": k, "n": n}
+    _PREP[key] = out
+    return out
+
+
+def place(g, prep, placement, blobs=None):
+    """placement: {shnum: [server,...]}; blobs optionally overrides container bytes per (server, shnum)"""
+    import os
+    rel = storage_index_to_dir(prep["si"])
+    for shnum, servers in placement.items():
+        for sv in servers:
+            blob = (blobs or {}).get((sv, shnum), prep["shares"][shnum])
+            if blob is None:
+                continue
+            d = os.path.join(g.base, "s%d" % sv, "shares", rel)
+            os.makedirs(d, exist_ok=True)
+            with open(os.path.join(d, str(shnum)), "wb") as f:
+                f.write(blob)
+
+
+def share_fields(blob):
+    """independent parser of a v1 immutable share inside its container file.
+    returns {name: (start, end)} with absolute offsets into the container file."""
+    C = 0x0c
+    (ver, block_size, data_size, o_data, o_pt, o_ct, o_bh, o_sh, o_ueb) = struct.unpack(">LLLLLLLLL", blob[C:C + 0x24])
+    assert ver == 1
+    (nleases,) = struct.unpack(">L", blob[8:12])
+    end_share = len(blob) - 72 * nleases
+    (ueb_len,) = struct.unpack(">L", blob[C + o_ueb:C + o_ueb + 4])
+    f = {"container_header": (0, C), "version": (C, C + 4), "block_size": (C + 4, C + 8), "data_size": (C + 8, C + 12)}
+    for i, name in enumerate(["o_data", "o_plaintext_hash_tree", "o_crypttext_hash_tree", "o_block_hashes", "o_share_hashes", "o_uri_extension"]):
+        f[name] = (C + 12 + 4 * i, C + 16 + 4 * i)
+    f["data"] = (C + o_data, C + o_pt)
+    f["plaintext_hash_tree"] = (C + o_pt, C + o_ct)
+    f["crypttext_hash_tree"] = (C + o_ct, C + o_bh)
+    f["block_hashes"] = (C + o_bh, C + o_sh)
+    f["share_hashes"] = (C + o_sh, C + o_ueb)
+    f["ueb_length"] = (C + o_ueb, C + o_ueb + 4)
+    f["ueb"] = (C + o_ueb + 4, C + o_ueb + 4 + ueb_len)
+    f["leases"] = (end_share, len(blob))
+    f["_block_size"] = block_size
+    return f
+
+
+def flip(blob, pos, mask=0x01):
+    b = bytearray(blob)
+    b[pos] ^= mask
+    return bytes(b)
+
+
+# ------------------------------------------------------------------ generic download executor
+DAMAGE_KINDS = ("missing", "corrupt-block0", "corrupt-blocklast", "corrupt-blockhash", "corrupt-sharehash", "corrupt-ueb", "corrupt-cthash")
+SERVER_KINDS = ("ok", "errors-on-read", "errors-on-everything", "disconnects-on-first-read")
+
+
+def damage(blob, kind):
+    if kind == "missing":
+        return None
+    f = share_fields(blob)
+    pos = {
+        "corrupt-block0": f["data"][0],
+        "corrupt-blocklast": f["data"][1] - 1,
+        "corrupt-blockhash": f["block_hashes"][1] - 1,      # a leaf of the block hash tree
+        "corrupt-sharehash": f["share_hashes"][0] + 2,
+        "corrupt-ueb": f["ueb"][0] + 5,
+        "corrupt-cthash": f["crypttext_hash_tree"][0],
+    }[kind]
+    return flip(blob, pos)
+
+
+def run_reads(case, prefix, seed):
+    """case keys: k n seg size S; bad_ct (list of segnums); placement {str(shnum): [servers]};
+    damage {"sv:shnum": kind}; server_kind {str(sv): kind}; groups [[[offset,size],...],...]
+    (reads of one group are started together on ONE node object, groups run one after another);
+    fault_kinds; explore_groups (indexes of groups whose execution is explored)."""
+    prep = prepare(case["k"], case["n"], case["seg"], case["size"], seed, tuple(case.get("bad_ct", ())))
+    data = prep["data"]
+    ch = grid.Chooser(prefix)
+    S = case["S"]
+    g = grid.Grid(S, chooser=ch, fault_kinds=tuple(case.get("fault_kinds", ())),
+                  client_kw=dict(k=case["k"], n=case["n"], happy=1, max_segment_size=case["seg"]))
+    viol, obs = [], {"outcomes": []}
+    try:
+        placement = {int(sh): list(svs) for sh, svs in case["placement"].items()}
+        blobs = {}
+        dmg = case.get("damage", {})
+        for sh, svs in placement.items():
+            for sv in svs:
+                kind = dmg.get("%d:%d" % (sv, sh))
+                if kind:
+                    blobs[(sv, sh)] = damage(prep["shares"][sh], kind)
+        place(g, prep, placement, blobs)
+        skind = {int(s): kd for s, kd in case.get("server_kind", {}).items()}
+        sched = g.sched
+        real_execute = sched._execute
+        first_read_seen = set()
+
+        def _execute(ev):
+            kd = skind.get(ev.conn.si, "ok")
+            if kd == "errors-on-everything" or (kd == "errors-on-read" and ev.meth == "read"):
+                from twisted.python.failure import Failure as _F
+                try:
+                    raise grid.IntentionalError("static server fault")
+                except grid.IntentionalError:
+                    return ("err", _F(RemoteException(_F())))
+            return real_execute(ev)
+        sched._execute = _execute
+        real_deliver = sched.do_deliver
+
+        def do_deliver(ev):
+            if skind.get(ev.conn.si) == "disconnects-on-first-read" and ev.meth == "read" and not ev.conn.dead:
+                sched.disconnect(ev.conn, note_ev=ev)
+                return
+            real_deliver(ev)
+        sched.do_deliver = do_deliver
+
+        node = g.clients[0].create_node_from_uri(prep["cap"])
+        segsize = ((case["seg"] + case["k"] - 1) // case["k"]) * case["k"]
+        bad_ct = set(case.get("bad_ct", ()))
+        for gi, group in enumerate(case["groups"]):
+            reads = []
+            sched.explore = gi in case.get("explore_groups", list(range(len(case["groups"]))))
+            for (off, size) in group:
+                cons = RecordingConsumer()
+                reads.append((off, size, cons, grid.box(node.read(cons, off, size))))
+            sched.run()                      # to quiescence, all timers fired
+            sched.explore = False
+            # classification of servers for this execution
+            faulted = set()
+            for (kind, label, o) in sched.log:
+                if kind.startswith("fault"):
+                    faulted.add(int(label.split("s")[1].split("#")[0]))
+            good_lo, good_hi = set(), set()
+            for sh, svs in placement.items():
+                for sv in svs:
+                    kind = dmg.get("%d:%d" % (sv, sh))
+                    if skind.get(sv, "ok") == "ok" and kind != "missing":
+                        # a copy with a corrupt field may still serve the pieces that validate:
+                        # it counts for "could succeed" (hi) but not for "must succeed" (lo)
+                        good_hi.add(sh)
+                        if kind is None and sv not in faulted:
+                            good_lo.add(sh)
+            for (off, size, cons, b) in reads:
+                want = data[off:] if size is None else data[off:off + size]
+                got = cons.data()
+                lo_seg = off // segsize
+                hi_seg = (off + len(want) - 1) // segsize if want else lo_seg
+                touches_bad = bool(want) and any(s in bad_ct for s in range(lo_seg, hi_seg + 1))
+                desc = "read(offset=%r,size=%r) group %d" % (off, size, gi)
+                if not b:
+                    viol.append(("read-never-completes", "%s: Deferred never fired although nothing is pending and all timers fired; log tail=%r" % (desc, sched.log[-5:])))
+                    obs["outcomes"].append("hang")
+                    continue
+                if len(b) > 1:
+                    viol.append(("read-fired-twice", desc))
+                if want[:len(got)] != got:
+                    viol.append(("wrong-bytes", "%s delivered bytes that are not a prefix of the plaintext slice (got %d bytes)" % (desc, len(got))))
+                if b[0][0] == "ok":
+                    obs["outcomes"].append("ok")
+                    if got != want:
+                        viol.append(("wrong-bytes" if want[:len(got)] != got else "short-read-reported-success", "%s succeeded with %d of %d bytes" % (desc, len(got), len(want))))
+                    if touches_bad:
+                        viol.append(("bad-ciphertext-accepted", "%s covers a segment whose ciphertext hash is wrong yet succeeded" % desc))
+                    if len(good_hi) < case["k"] and want:
+                        viol.append(("success-without-k-shares", "%s succeeded although only %d distinct intact shares are readable" % (desc, len(good_hi))))
+                else:
+                    name = failure_name(b[0][1])
+                    obs["outcomes"].append("err:" + name)
+                    if not bad_ct and len(good_lo) >= case["k"]:
+                        viol.append(("read-failed-with-k-good-shares:" + name, "%s failed (%s) although %d distinct intact shares sit on servers that answered every call: %r" % (desc, b[0][1].getErrorMessage()[:200], len(good_lo), sorted(good_lo))))
+                    if len(good_hi) < case["k"] and name not in ("NotEnoughSharesError", "NoSharesError"):
+                        viol.append(("wrong-error-when-too-few-shares:" + name, "%s failed with %s, expected a not-enough-shares error" % (desc, name)))
+        for e in boot.R.take_errors():
+            viol.append(("exception-in-timer:" + type(e.value).__name__, e.getTraceback()[-400:]))
+        for (why, e) in boot.take_logged():
+            viol.append(("uncaught-exception-in-callback:" + type(e.value).__name__, e.getTraceback()[-600:]))
+        obs["events"] = len(sched.log)
+    finally:
+        g.close()
+    return ch.trace, viol, obs
+
+
+# ------------------------------------------------------------------ shared exploration driver
+def explore_chunk(chunk, seed, d_bound, f_bound, max_exec, prop_tag):
+    """chunk: list of cases for run_reads.  Explores every schedule/fault placement within bounds."""
+    from . import common
+    res = common.Result()
+    for case in chunk:
+        gate = {}
+
+        def ex(prefix):
+            trace, viol, obs = run_reads(case, prefix, seed)
+            return trace, (viol, obs)
+
+        def on_exec(prefix, trace, info):
+            viol, obs = info
+            res.count("executions")
+            res.count("transitions", obs.get("events", 0))
+            res.count("choice_points", len(trace))
+            res.distinct.add(tuple(obs.get("outcomes", ())))
+            for o in obs.get("outcomes", ()):
+                res.count("outcome:" + o)
+            for sig, msg in viol:
+                res.violation(sig, {"case": case, "prefix": prefix}, msg + " | case=%r schedule=%r" % (case, prefix))
+            if any(prefix) and not gate:
+                gate["done"] = True
+                t2, v2, o2 = run_reads(case, prefix, seed)
+                if [(n, p) for (n, p, m) in t2] != [(n, p) for (n, p, m) in trace] or o2 != obs:
+                    raise grid.HarnessError("nondeterministic replay: case=%r prefix=%r\n%r\n%r" % (case, prefix, obs, o2))
+                res.count("determinism_gates")
+                if res.counts.get("determinism_gates", 0) <= 2:
+                    res.sample({"case": case, "schedule": prefix, "choice_points": len(trace), "outcomes": obs.get("outcomes")})
+        n, capped = grid.explore_subtree(ex, [], d_bound, f_bound, on_exec, max_exec=max_exec)
+        res.count("trees")
+        if capped:
+            res.count("capped_trees")
+    return res
+
+
+def coverage_from(res, rule, extra=None):
+    cov = {
+        "states": res.counts.get("executions", 0),
+        "transitions": res.counts.get("transitions", 0),
+        "traces_validated_against_impl": res.counts.get("executions", 0),
+        "schedule_trees": res.counts.get("trees", 0),
+        "capped_trees": res.counts.get("capped_trees", 0),
+        "choice_points": res.counts.get("choice_points", 0),
+        "distinct_outcome_vectors": len(res.distinct),
+        "outcomes": {k[8:]: v for k, v in res.counts.items() if k.startswith("outcome:")},
+        "rule": rule,
+    }
+    cov.update(extra or {})
+    return cov
